@@ -51,6 +51,17 @@ def planOf (w : World) : Event → Option (Plan × Option Nat × Option Nat)
   | .damagedRestart => none
   | .setRole _ _ _ => none
 
+/-- run a handler's plan under its armed failure / crash ordinals; a process that died is replaced
+    by a new one started on what was written -/
+def stepPlan (w : World) (p : Plan) (f c : Option Nat) : World × Obs :=
+  let r := exec p f c
+  let d' := applyAll w.d r.2
+  if r.1.panic then
+    match restart w.cf d' with
+    | none => (⟨w.cf, d', emptyVol, true⟩, deadObs d')
+    | some (v, calls) => (⟨w.cf, d', v, false⟩, ⟨false, true, .none, r.2, v, d', calls⟩)
+  else (⟨w.cf, d', r.1.vol, false⟩, ⟨false, false, r.1.resp, r.2, r.1.vol, d', r.1.fsm⟩)
+
 def stepEvent (w : World) (e : Event) : World × Obs :=
   if w.dead then (w, deadObs w.d) else
   match e with
@@ -62,15 +73,7 @@ def stepEvent (w : World) (e : Event) : World × Obs :=
   | _ =>
     match planOf w e with
     | none => (w, deadObs w.d)
-    | some (p, f, c) =>
-      let r := exec p f c
-      let d' := applyAll w.d r.2
-      if r.1.panic then
-        -- the process died; a new one starts on what was written
-        match restart w.cf d' with
-        | none => (⟨w.cf, d', emptyVol, true⟩, deadObs d')
-        | some (v, calls) => (⟨w.cf, d', v, false⟩, ⟨false, true, .none, r.2, v, d', calls⟩)
-      else (⟨w.cf, d', r.1.vol, false⟩, ⟨false, false, r.1.resp, r.2, r.1.vol, d', r.1.fsm⟩)
+    | some (p, f, c) => stepPlan w p f c
 
 /-- all observations of a run: the boot, then one per event -/
 def runObs (w : World) : List Event → List Obs
